@@ -44,7 +44,10 @@ class Authenticator:
             Action.save.value: self.default_roles,
             Action.query.value: self.default_roles,
         }
-        valid_urls = options.get("relay_urls", "ws://localhost:6969")
+        valid_urls = options.get("relay_urls", ["ws://localhost:6969"])
+        if isinstance(valid_urls, str):
+            # a single url: membership must not degrade to a substring test
+            valid_urls = [valid_urls]
         for action, roles in options.get("actions", {}).items():
             if isinstance(action, Action):
                 action = action.value
